@@ -585,6 +585,12 @@ def _array(ex, args, kwargs, fr):
     if is_num(v):
         d = dtype or VDtype("float64" if isinstance(v, VFloat) else "bool" if isinstance(v, VBool) else "int64")
         return new_array(ex, (), d, lambda ix: cast_elem(ex, v, d))
+    if isinstance(v, VRange) and v.step is None:
+        lo, hi = z_int(int_of(v.lo)), z_int(int_of(v.hi))
+        n = z3.simplify(z3.If(hi > lo, hi - lo, 0))
+        out = new_array(ex, (n,), dtype or VDtype("int64"), lambda ix, lo=lo: VInt(lo + z_int(ix[0])))
+        ex.st.cell(out).tag = ("range", lo, z3.simplify(z3.If(hi > lo, hi, lo)))
+        return out
     items = ex.try_list(v)
     if items is not None and all(is_num(x) for x in items):
         d = dtype or VDtype("float64" if any(isinstance(x, VFloat) for x in items) else "int64")
@@ -943,3 +949,21 @@ def _normal(ex, args, kwargs, fr):
         noise = normal_draw(did, z_int(ix[0]), z_int(ix[1]))
         return VFloat(z3.If(zero if not isinstance(zero, bool) else z3.BoolVal(zero), to_real(loc), to_real(loc) + to_real(scale) * noise))
     return new_array(ex, shape, VDtype("float64"), elem)
+
+
+@npfn("numpy.intersect1d")
+def _intersect1d(ex, args, kwargs, fr):
+    """Library contract restricted to two arrays of consecutive integers (np.array(range(a, b))):
+    the result is the sorted array of the integers in both, i.e. range(max(a1,a2), min(b1,b2))."""
+    ca, cb = cell(ex, args[0]), cell(ex, args[1])
+    if not (ca.tag and ca.tag[0] == "range" and cb.tag and cb.tag[0] == "range"):
+        raise Unsupported("np.intersect1d on arrays that are not integer ranges")
+    lo = z3.If(ca.tag[1] >= cb.tag[1], ca.tag[1], cb.tag[1])
+    hi = z3.If(ca.tag[2] <= cb.tag[2], ca.tag[2], cb.tag[2])
+    # an empty operand has lo == hi; the intersection with it is empty
+    empty = z3.Or(ca.tag[1] >= ca.tag[2], cb.tag[1] >= cb.tag[2], hi <= lo)
+    n = z3.simplify(z3.If(empty, 0, hi - lo))
+    lo = z3.simplify(lo)
+    out = new_array(ex, (n,), VDtype("int64"), lambda ix, lo=lo: VInt(lo + z_int(ix[0])))
+    ex.st.cell(out).tag = ("range", lo, z3.simplify(lo + n))
+    return out
